@@ -332,7 +332,6 @@ def c05_queries(tier):
         q.solver = 'cadical'
         q.bounds = {'max_len': 24, 'structure': 'one symbolic hex fill digit, ":" at <= 9 and "." at <= 4 symbolic positions, one arbitrary byte'}
         qs.append(q)
-        qs.append(ip_struct6('C05', 46, 5000))
         qs.append(ip_query('C05', 0, 12, 1, ['accepted-v6', 'accepted-v4'], timeout=3000))
     Nb = 20 if tier == 'quick' else 40
     qs += [email_query('C05', m, Nb, covers=['end', 'accepted-literal', 'accepted-tagged-v6', 'accepted-v4', 'accepted-untagged-v6'],
